@@ -436,17 +436,17 @@ def run_case_ls(ctx, hcmd, dcmd, ops, timeout=120, stats=None):
                 # a constrained objective forces the backtracking line search inside init
                 ls = 2 if boxed else int(struct.unpack("<d", bytes.fromhex(t[2][1:])[::-1])[0])
                 nh = int(struct.unpack("<d", bytes.fromhex(t[3][1:])[::-1])[0]) if kind == "lbfgs" else 100
-                dops.append(f"xopt {kind} {ls} {nh}")
+                # initial bracket of dlinmin (LineSearch::minInterval/maxInterval), default [0, 1]
+                br = t[4:6] if kind == "lbfgs" else t[3:5]
+                if len(br) != 2: br = [fb(0.0), fb(1.0)]
+                dops.append(f"xopt {kind} {ls} {nh} {br[0]} {br[1]}")
             else:
                 dops.append("")
             expect.append("plain")
         elif t[0] == "ls" and m:
             typ = int(struct.unpack(">d", bytes.fromhex(t[1][1:]))[0])
-            if typ == 2:
-                n = int(m.group(1).split(",")[0])
-                dops.append("xls %d %s %s" % (n, ",".join(t[2:]), m.group(1).split(",", 1)[1])); expect.append("verdict")
-            else:
-                dops.append(""); expect.append("skip")
+            n = int(m.group(1).split(",")[0])
+            dops.append("xls %d %d %s %s" % (typ, n, ",".join(t[2:]), m.group(1).split(",", 1)[1])); expect.append("verdict")
         elif t[0] == "boxdir" and m:
             n = int(m.group(1).split(",")[0])
             dops.append("xboxdir %d %s %s %s" % (n, t[1], ",".join(t[2:]), m.group(1).split(",", 1)[1])); expect.append("verdict")
